@@ -75,7 +75,7 @@ class DuplicateKernel(Transformation):
         if scope_name:
             scope_name = f'{scope_name}{self.module_suffix}'
         # Try to get existing item from cache
-        new_item_name = f'{scope_name or ""}#{local_name}'
+        new_item_name = f'{scope_name or ""}#{local_name}'.lower()
         return scope_name, local_name, new_item_name
 
     def _get_or_create_or_rename_item(self, item, item_factory, config):
